@@ -176,7 +176,8 @@ def emit_gadget(d, world, acts, shapes=GADGET_SHAPES):
     t0 = world.side[0]
     files = [f for f in t0.files() if world.settled_untouched(f)]
     sdirs = [g for g in t0.dirs() if g and world.settled_untouched(g)]
-    empty_dirs = [g for g in sdirs if not t0.subtree(g) and not world.side[1].subtree(g)]
+    used_as_parent = world.win.R[0] | world.win.R[1]
+    empty_dirs = [g for g in sdirs if not t0.subtree(g) and not world.side[1].subtree(g) and g not in used_as_parent]
     parents = [""] + [g for g in sdirs if depth(g) < MAX_DEPTH - 1]
     news = [g + "/" + n for g in parents for n in NAMES if world.free_new_path(g + "/" + n)]
     shapes = list(shapes)
